@@ -102,7 +102,7 @@ func trimStack(b []byte) string {
 }
 
 func worker() {
-	debug.SetMaxStack(256 << 20)
+	debug.SetMaxStack(64 << 20)
 	in := bufio.NewReaderSize(os.Stdin, 1<<20)
 	out := bufio.NewWriter(os.Stdout)
 	for {
